@@ -99,6 +99,17 @@ prop("C33",
      residual="CF sqref string splitting/printing, CF rule formulas (parser), cut/paste, clear+undo of links")
 
 
+prop("C04",
+     units=["atomic", "cols", "rows"],
+     scans=["history-writers"],
+     level="proof",
+     claim="each user-model operation under contract (list in coverage.functions_under_contract) leaves engine state, undo/redo stacks and outgoing queue "
+           "unchanged when it returns Err and records exactly one entry when it returns Ok; Worksheet column/row setters: Err => descriptors unchanged",
+     assumptions=["A-atomic: every Model method called by those operations either succeeds or leaves the engine unchanged (each stub is listed as an assumed contract)",
+                  "D5: Model/Workbook are context shells with the touched fields + an opaque rest"],
+     residual="atomicity inside the big Model functions (insert_rows failing half-way, paste, move_columns_action); operations not yet under contract")
+
+
 def evidence(pid, tier, seed, results, scan_results, kani_results, violations, known_hits, undecided, wall):
     P = PROPS[pid]
     obligations = 0
